@@ -51,7 +51,7 @@ Next == /\ phase = 0 /\ phase' = 1 /\ di' = di
 \* ---- the law on the reference: for every node n the evaluator can reach inside the document,
 \* traversing path(n) from the root returns n, key(n) is the last element, parent(n) holds n at that key
 D == DocSeq[di]
-PathTruth == \A ni \in DOMAIN Nodes :
+PathTruth == phase = 1 => \A ni \in DOMAIN Nodes :
    LET r == Run(Nodes[ni], D) IN r.st # "ok" \/ (\E j \in DOMAIN r.ctx : ~r.ctx[j].in) \/ \A j \in DOMAIN r.ctx :
       LET c == r.ctx[j]
           pth == Run(EPipe(Nodes[ni], ENul("GET_PATH")), D)
